@@ -40,6 +40,7 @@ def analyse(case, io):
     awaited = set()     # futures that were ever yielded or sync-waited
     openctx = {}        # task -> [spec]  (entry order)
     cstate = {}         # (task, cid) -> "R"/"P"
+    left = set()        # (task, cid) of logged contexts whose block has been left (and not been entered again)
     lifo = []           # global stack of resumed logged contexts
     flushed = {}        # (kind, idx) -> number of _flush runs
     sync_stack = []     # [(task, target)]
@@ -415,6 +416,8 @@ def analyse(case, io):
         elif n == "AuxEnter":
             t = _t(a[0])
             openctx.setdefault(t, []).append(a[1])
+            if "async" in a[1]:
+                left.discard((t, a[1]["async"][0]))
         elif n == "AuxExit":
             t, sp = _t(a[0]), a[1]
             lst = openctx.get(t, [])
@@ -422,6 +425,7 @@ def analyse(case, io):
                 lst.remove(sp)
             if "async" in sp:
                 cid = sp["async"][0]
+                left.add((t, cid))
                 if cstate.get((t, cid)) != "P":
                     add("C06:alternation", "block-left-without-pause",
                         "context %s of task %s was left (%s) but its last event is not a pause" % (cid, list(t), a[2]))
@@ -429,6 +433,12 @@ def analyse(case, io):
             t, cid = _t(a[0]), a[1]
             want = "P" if n == "EvResume" else "R"
             prev = cstate.get((t, cid), "P")
+            if (t, cid) in left:
+                # "ending with a pause on exit": the pause made on exit is the LAST call, however the block was left (also
+                # when that pause itself raised and the task carried on)
+                add("C06:alternation", "call-after-block-left:%s" % ("resume" if n == "EvResume" else "pause"),
+                    "context %s of task %s got a %s() call after its with-block had been left" % (
+                        cid, list(t), "resume" if n == "EvResume" else "pause"))
             if prev != want:
                 killed = t in susp_nonasync
                 add("C06:alternation", "double-%s%s" % ("resume" if n == "EvResume" else "pause",
